@@ -7,7 +7,7 @@ PROPS = {}
 PROPS['C19'] = dict(
     module='GeodeVerif.Proofs.C19', namespace='GeodeVerif.C19',
     required_theorems=['join_radiate', 'bearing_range', 'bearing_south', 'bearing_west', 'bearing_west_half', 'bearing_east_half',
-                       'back_bearing_east', 'back_bearing_west', 'joins_reverse', 'joins_reverse_west', 'joins_reverse_meridian',
+                       'back_bearing_east', 'back_bearing_west', 'joins_reverse', 'joins_reverse_west', 'joins_reverse_meridian', 'rect2polar_scale',
                        'rotation_scale', 'rotation_scale_as_plain', 'rotation_full_turn', 'scale_linear', 'va_pythagoras', 'va_heights', 'va_second_range',
                        'fvc_proportional_closed', 'fvc_ciddor_form', 'fvc_defined_closed', 'fvc_defined_co2',
                        'group_is_phase_plus_dispersion'],
